@@ -43,7 +43,7 @@ type Scenario struct {
 	Cancel  int           `json:"cancel"`  // cancel the context at this gate step (0: never, -1: before the call)
 	CMode   string        `json:"cmode"`   // "" / "before": before releasing the step's operation; "after": after its effect
 	SrcKind string        `json:"srckind"` // memory (default) | oci | remote (Referrers API) | remotetag (referrers tag schema)
-	DstKind string        `json:"dstkind"` // memory (default) | oci | file
+	DstKind string        `json:"dstkind"` // memory (default) | oci | file | remote
 	CbErr   []Fault       `json:"cberr"`   // callback errors: op in pre post skipped
 	Prefix  []int         `json:"prefix"`  // schedule: choice per step, then seeded random
 	Seed    int64         `json:"seed"`
@@ -52,6 +52,9 @@ type Scenario struct {
 	Filter string `json:"filter,omitempty"`
 	// remote sources: Referrers API page limit of the registry (0: one page)
 	RefPage int `json:"refpage,omitempty"`
+	// remote destination: 0 no MountFrom; 1 MountFrom = [source repository]; 2 MountFrom = [a repository without the
+	// blobs, source repository]; 3 MountFrom = [a repository without the blobs] (mounting fails, the node is copied)
+	Mount int `json:"mount,omitempty"`
 }
 
 var errCallback = errors.New("verif: callback error")
@@ -75,7 +78,11 @@ func RunOne(t *testing.T, sc *Scenario, tr *vh.Tracer) Result {
 	tr.Begin(sc.ID)
 	synctest.Test(t, func(t *testing.T) {
 		bg := context.Background()
-		src, err := newSrc(t, sc.SrcKind, sc.RefPage)
+		var reg *regfake.Registry
+		if strings.HasPrefix(sc.SrcKind, "remote") || sc.DstKind == "remote" {
+			reg = regfake.New(regHost, regfake.Profile{Referrers: sc.SrcKind != "remotetag", DigestHdr: true, RefPageLimit: sc.RefPage, Mount: sc.Mount != 0})
+		}
+		src, err := newSrc(t, sc.SrcKind, reg)
 		if err != nil {
 			t.Fatal(err)
 		}
@@ -92,7 +99,7 @@ func RunOne(t *testing.T, sc *Scenario, tr *vh.Tracer) Result {
 				t.Fatal(err)
 			}
 		}
-		dstm, err := newDst(t, sc.DstKind)
+		dstm, err := newDst(t, sc.DstKind, reg)
 		if err != nil {
 			t.Fatal(err)
 		}
@@ -140,7 +147,7 @@ func RunOne(t *testing.T, sc *Scenario, tr *vh.Tracer) Result {
 			"dst0": dw.has(), "c": sc.C, "api": sc.API, "depth": sc.Depth, "dstref": sc.DstRef,
 			"refdst": sc.RefDst, "maproot": sc.MapRoot, "faults": fl, "cancel": sc.Cancel, "cmode": sc.CMode,
 			"srckind": kindOr(sc.SrcKind), "dstkind": kindOr(sc.DstKind),
-			"filter": sc.Filter, "pass": filterPass(g, sc.Filter), "predsubj": strings.HasPrefix(sc.SrcKind, "remote"), "subj": subj})
+			"filter": sc.Filter, "pass": filterPass(g, sc.Filter), "predsubj": strings.HasPrefix(sc.SrcKind, "remote"), "subj": subj, "mount": sc.Mount})
 
 		cb := func(kind string) func(context.Context, ocispec.Descriptor) error {
 			return func(_ context.Context, d ocispec.Descriptor) error {
@@ -161,11 +168,19 @@ func RunOne(t *testing.T, sc *Scenario, tr *vh.Tracer) Result {
 			}
 		}
 		gopts := oras.CopyGraphOptions{Concurrency: sc.C, PreCopy: cb("pre"), PostCopy: cb("post"), OnCopySkipped: cb("skipped")}
+		if sc.Mount != 0 {
+			gopts.OnMounted = cb("mounted")
+			gopts.MountFrom = func(context.Context, ocispec.Descriptor) ([]string, error) {
+				return [][]string{nil, {srcRepo}, {"team/none", srcRepo}, {"team/none"}}[sc.Mount], nil
+			}
+		}
 
 		call := func(ctx context.Context) (int, error) {
 			var dst oras.Target = dw
 			if sc.RefDst {
 				dst = &dstRefW{dw}
+			} else if m, ok := dstm.(registry.Mounter); ok && sc.Mount != 0 {
+				dst = &dstMountW{dstW: dw, m: m}
 			}
 			switch sc.API {
 			case "copygraph":
@@ -313,24 +328,29 @@ type srcStore interface {
 
 const (
 	regHost = "reg.example"
-	regRepo = "team/app"
+	srcRepo = "team/src"
+	dstRepo = "team/dst"
 )
 
-func newSrc(t *testing.T, kind string, refPage int) (srcStore, error) {
+// remoteRepo is a real remote.Repository over the in-process registry.
+func remoteRepo(reg *regfake.Registry, name string, referrers bool) (*remote.Repository, error) {
+	r, err := remote.NewRepository(regHost + "/" + name)
+	if err != nil {
+		return nil, err
+	}
+	r.PlainHTTP, r.Client = true, &http.Client{Transport: reg}
+	r.SetReferrersCapability(referrers)
+	return r, nil
+}
+
+func newSrc(t *testing.T, kind string, reg *regfake.Registry) (srcStore, error) {
 	switch kind {
 	case "oci":
 		return oci.New(t.TempDir())
 	case "remote", "remotetag":
-		// a real remote.Repository over the in-process registry; content is pushed through it (so that, without the
-		// Referrers API, the client builds the referrers-tag indexes itself)
-		reg := regfake.New(regHost, regfake.Profile{Referrers: kind == "remote", DigestHdr: true, RefPageLimit: refPage})
-		r, err := remote.NewRepository(regHost + "/" + regRepo)
-		if err != nil {
-			return nil, err
-		}
-		r.PlainHTTP, r.Client = true, &http.Client{Transport: reg}
-		r.SetReferrersCapability(kind == "remote")
-		return r, nil
+		// content is pushed through the client (so that, without the Referrers API, it builds the referrers-tag
+		// indexes itself)
+		return remoteRepo(reg, srcRepo, kind == "remote")
 	}
 	return memory.New(), nil
 }
@@ -398,8 +418,10 @@ type dstStore interface {
 	content.TagResolver
 }
 
-func newDst(t *testing.T, kind string) (dstStore, error) {
+func newDst(t *testing.T, kind string, reg *regfake.Registry) (dstStore, error) {
 	switch kind {
+	case "remote":
+		return remoteRepo(reg, dstRepo, reg.Profile.Referrers)
 	case "oci":
 		return oci.New(t.TempDir())
 	case "file":
